@@ -57,8 +57,10 @@ TrOut(s, op) ==
 
 \* the expiring cache with the clock standing still
 EOut(s, op) ==
-    CASE op.n = "count" -> { O(s, R(TRUE, Cardinality(DOMAIN s.items), <<>>)) }
-      [] op.n = "get"   -> { O(s, IF E!MayLive(s, op.a[1]) THEN R(TRUE, s.items[op.a[1]].v, <<>>) ELSE R(FALSE, 0, <<>>)) }
+    \* Count may or may not include entries that have expired and are not purged yet
+    CASE op.n = "count" -> { O(s, R(TRUE, n, <<>>)) : n \in Cardinality({ k \in DOMAIN s.items : E!SureLive(s, k) })..Cardinality(DOMAIN s.items) }
+      [] op.n = "get"   -> (IF E!MayLive(s, op.a[1]) THEN { O(s, R(TRUE, s.items[op.a[1]].v, <<>>)) } ELSE {})
+                           \cup (IF ~E!SureLive(s, op.a[1]) THEN { O(s, R(FALSE, 0, <<>>)) } ELSE {})
       [] OTHER          -> E!Out(s, op)
 
 Init == [ty |-> "none"]
